@@ -99,6 +99,8 @@ def cases(tier, seed):
             continue
         out.append(dict(part="meta", num_records=7, sum_weights=a, ra=min(b, 6.0) if b < 7 else 1.0,
                         dec=min(c_, 1.5) if c_ < 2 else 0.5, radius=b if b < 3.2 else 0.25))
+    for N in (181, 182, 200, 300):
+        out.append(dict(part="hdf-many-patches", N=N))
     for ra in (-0.5, -3.0, 7.0, 2 * math.pi):
         out.append(dict(part="meta", num_records=7, sum_weights=3.5, ra=ra, dec=0.25, radius=0.125))
     for w, z in itertools.product((False, True), repeat=2):
@@ -155,6 +157,17 @@ def run_hdf(case):
         return [viol(f"C11/hdf/exception:{type(e).__name__}/{content}",
                      f"CorrFunc HDF5 round trip raised {yawx.exc_name(e)} ({tag})")], True
     after = C.snap(back)
+    # another object written to the same path and read again in the same process: the file decides, not a memory
+    if case["B"] == 2 and content == "fp":
+        try:
+            other = c04.make_cf(case["B"], case["N"], case["auto"], case["members"], "sparse", "uneq", case["closed"])
+            other.to_file(path)
+            back2 = yaw.CorrFunc.from_file(path)
+            if not C.snap_equal(C.snap(other), C.snap(back2)):
+                return [viol("C11/hdf/stale-after-overwrite", "after another CorrFunc was written to the same path from_file "
+                             "still returns the first one")], True
+        except Exception as e:
+            return [viol(f"C11/hdf/overwrite-exception:{type(e).__name__}", yawx.exc_name(e))], True
     if not C.snap_equal(before, after):
         diff = [m for m in ("dd", "dr", "rd", "rr") if not C.snap_equal(before[m], after[m])]
         v.append(viol(f"C11/hdf/differs/{content}", f"CorrFunc read back differs in {diff} ({tag}, "
@@ -217,6 +230,26 @@ def kept_decimals(x):
     s = f"{x: .10f}"
     head = len(s.split(".")[0])
     return max(0, 10 - head - 1)
+
+
+def run_hdf_many(case):
+    """PatchedCounts with N >= 182 patches (N*N exceeds 16-bit index ranges) through HDF5."""
+    from yaw.correlation.paircounts import PatchedCounts
+
+    N = case["N"]
+    i, j = np.meshgrid(np.arange(N), np.arange(N), indexing="ij")
+    counts = (((3 * i + 7 * j) % 13 == 0) * ((i * 31 + j) % 97 + 1)).astype(float)[None, :, :]  # sparse, distinct values
+    x = PatchedCounts(C.make_binning(1), counts, auto=False)
+    path = os.path.join(runner.fresh_dir("c11m"), "pc.hdf")
+    try:
+        x.to_file(path)
+        back = PatchedCounts.from_file(path)
+    except Exception as e:
+        return [viol(f"C11/hdf-many/exception:{type(e).__name__}", f"{N} patches: {yawx.exc_name(e)}")], True
+    if back.counts.shape != counts.shape or not np.array_equal(back.counts, counts):
+        n = int((back.counts != counts).sum()) if back.counts.shape == counts.shape else -1
+        return [viol("C11/hdf/differs/many-patches", f"PatchedCounts with {N} patches: {n} count cells differ after the HDF5 round trip")], True
+    return [], True
 
 
 def run_prefix(case):
@@ -354,7 +387,7 @@ def run_cache(case):
 
 
 def run_case(case):
-    fn = dict(hdf=run_hdf, yaml=run_yaml, text=run_text, meta=run_meta, cache=run_cache, prefix=run_prefix)[case["part"]]
+    fn = dict(hdf=run_hdf, yaml=run_yaml, text=run_text, meta=run_meta, cache=run_cache, prefix=run_prefix, **{"hdf-many-patches": run_hdf_many})[case["part"]]
     viols, nontrivial = fn(case)
     res = dict(nontrivial=bool(nontrivial), key=case)
     if viols:
